@@ -925,7 +925,8 @@ Lemma cohort_fold_spec p (l : list mclient) : forall a s, length a = length p ->
   fold_left Qplus (map snd (map (qclient_grads grad split p) l)) s == s + wtot (cohort_batch_grads p l).
 Proof.
   induction l as [|mc l IH]; intros a s L.
-  - cbn. split; [|unfold wtot; cbn; ring]. unfold cohort_batch_grads, wsum. cbn. rewrite vsum_nil, <- L. symmetry. apply vadd_zero_r.
+  - cbn [map fold_left]. split; [|unfold wtot; cbn; ring].
+    change (wsum (length p) (cohort_batch_grads p [])) with (vzero (length p)). rewrite <- L. symmetry. apply vadd_zero_r.
   - cbn [map fold_left]. destruct (qclient_grads_spec p mc) as [C1 C2].
     assert (Lc : length (fst (qclient_grads grad split p mc)) = length p).
     { rewrite (veq_length _ _ C1). apply wsum_length. apply chain_wf. }
@@ -940,7 +941,7 @@ Lemma sg_q_is_cohort_gradient p (clients : list mclient) :
   sg_q grad split p clients =v= wmean_batch (length p) (cohort_batch_grads p clients).
 Proof.
   unfold sg_q, wmean_batch. destruct clients as [|mc rest].
-  - cbn [map]. unfold cohort_batch_grads, wsum. cbn. rewrite vsum_nil, vscale_vzero. reflexivity.
+  - cbn [map]. change (wsum (length p) (cohort_batch_grads p [])) with (vzero (length p)). rewrite vscale_vzero. reflexivity.
   - cbn [map]. destruct (qclient_grads_spec p mc) as [C1 C2].
     assert (Lc : length (fst (qclient_grads grad split p mc)) = length p).
     { rewrite (veq_length _ _ C1). apply wsum_length. apply chain_wf. }
